@@ -55,6 +55,9 @@ func GetURLsFromJSON(decoder *json.Decoder) (assets, outlinks []string, err erro
 }
 
 func isLikelyJSON(str string) bool {
+	// white space around a JSON text is insignificant (json.Unmarshal skips it)
+	str = strings.TrimSpace(str)
+
 	// minimal json with a non-empty string
 	// -> len(`["a"]`)
 	if len(str) < 5 {
